@@ -302,8 +302,18 @@ func cmdCheck(prop, tier string) int {
 		samples = append(samples, map[string]interface{}{"obligation": o.Name, "kind": o.Kind, "goal": goal, "status": st, "backend": be})
 	}
 	nKnown := 0
+	boundedNames := map[string]bool{}
+	for _, o := range obls {
+		if o.Bounded {
+			boundedNames[o.Name] = true
+		}
+	}
 	for _, v := range known {
-		nKnown += len(v)
+		for _, n := range v {
+			if !boundedNames[n] {
+				nKnown++
+			}
+		}
 	}
 	var knownList []string
 	for k, v := range known {
